@@ -13,6 +13,9 @@ var objectNames = []string{"Alpha", "Beta", "Gamma", "Delta", "Epsilon"}
 var ifaceNames = []string{"Node", "Named", "Shape"}
 var unionNames = []string{"Thing", "Either"}
 var enumNames = []string{"Color", "Mode", "unit_kind"}
+
+// enum type names that are Go keywords / predeclared identifiers / the json import (F-20h, fix 08)
+var reservedEnumNames = []string{"int", "string", "type", "json", "error", "range", "any", "nil", "float64"}
 var enumValuePool = []string{"red", "_", "ON_", "RED", "DARK_BLUE", "light_green", "MiXed", "X1", "A_1", "a_b_c", "ON", "OFF", "VERY_LONG_VALUE_NAME", "x", "Z9_z", "TRAILING_", "DOUBLE__UNDER"}
 var fieldNamePool = []string{"id", "name", "age", "score", "ok", "tags", "matrix", "kind", "color", "next", "items", "owner", "peer", "value", "ratio", "note", "x1", "fooBar", "snake_case", "URL", "Zed", "iD2", "q"}
 
@@ -64,6 +67,9 @@ func genSchema(r *hx.Rand) SchemaSpec {
 		nIface, nUnion = 2, 2
 	}
 	enums := pickN(r, enumNames, nEnum)
+	if r.Chance(1, 10) {
+		enums[0] = hx.Pick(r, reservedEnumNames)
+	}
 	ifs := pickN(r, ifaceNames, nIface)
 	objs := pickN(r, objectNames, nObj)
 	uns := pickN(r, unionNames, nUnion)
